@@ -44,6 +44,7 @@ OWN_PID0 = 41000
 STALE_PID0 = 52000
 
 # L1 clauses the code as it is violates in corner cases: clause -> (model switch that repairs it, what happens)
+MAX_VIOLATIONS_PER_KIND = 20  # Violation objects kept per set of clauses (all are counted in the statistics)
 CASE_KEYS = ("scn", "pid0", "q0", "sched", "spawn", "seed", "p_env", "p_rc", "w_create", "w_exit", "w_crash", "w_reuse")
 PINNED = {
     "StartConsistent": ("RemoveStalePid", "a pid file left behind by an earlier (killed) node is read at once: start() returns the pid of another process"),
@@ -51,7 +52,48 @@ PINNED = {
     "StopCoversAll": ("ContinuePastFailure", "an exception of a telemetry device / AccessDenied of terminate() aborts stop(): the remaining nodes are never signalled"),
     "TelemetryComplete": ("DetachGone", "telemetry is never detached from a node whose process has already gone when stop() looks it up"),
     "AtMostMax": ("ExactAttempts", "wait_for_rest_layer(max_attempts=k) makes k + 1 attempts"),
+    "DownChecked": ("CheckDown", "the exit code of `docker-compose down` is dropped: a container that could not be removed goes unnoticed"),
 }
+
+
+def _report_l1(out, stats, tid, fails, replay, signature, detail):
+    """One recorded run with failing L1 clauses.  Clauses in PINNED are the strong forms which the code as it is is known not to meet
+    in corner cases (the forms it does meet are L1 clauses of their own): counted and shown as notes with one replayable example each,
+    they describe /repo as it is.  Every other failing clause is a violation."""
+    clauses = sorted({c for _, cl in fails for c in cl})
+    fresh = [c for c in clauses if c not in PINNED]
+    for c in clauses:
+        stats["l1"][c] = stats["l1"].get(c, 0) + 1
+    if fresh:
+        key = ",".join(fresh)
+        stats["l1_new"][key] = stats["l1_new"].get(key, 0) + 1
+        if stats["l1_new"][key] <= MAX_VIOLATIONS_PER_KIND:
+            out.violations.append(Violation(key, replay, signature=dict(signature, clauses=clauses), detail="%s, first failing event %d" % (detail, fails[0][0])))
+        return
+    for c in clauses:
+        rec = out.extra.setdefault("pinned_behaviour_observed", {}).setdefault(c, {"switch": PINNED[c][0], "what": PINNED[c][1], "runs": 0, "example": None, "size": None})
+        rec["runs"] += 1
+        size = len(str(replay))
+        if rec["example"] is None or size < rec["size"]:
+            rec["example"] = {"run": tid, "event": min(ln for ln, cl in fails if c in cl), "case": replay}
+            rec["size"] = size
+
+
+def _explain_drift(out, module, cfg, items, variants, label):
+    """Recorded runs that are not behaviours of the model of the code as it is: do they all fit a variant with one switch flipped
+    (i.e. has the pinned behaviour been repaired in the tree under test)?"""
+    if not items:
+        return
+    with open(os.path.join(tlc.SPECS, SPEC, cfg), encoding="utf-8") as f:
+        base = f.read()
+    for switch in variants:
+        txt = base.replace("%s = FALSE" % switch, "%s = TRUE" % switch)
+        if txt == base:
+            continue
+        v = tracecheck.validate(SPEC, module, cfg, copy.deepcopy(items[:200]), name="xlvariant", cfg_text=txt, timeout=300)
+        if not v.l2:
+            out.drift.append("%s: the %d runs that are not steps of the model of the code as it is are all accepted with %s = TRUE: this behaviour seems to have been repaired; switch the cfgs of specs/Launcher over" % (label, len(items), switch))
+            return
 
 
 def _quiet_root_logger():
@@ -613,10 +655,11 @@ def execute_proc(case):
             w.emit("sret", w.cur, tag)
             if nodes is not None:
                 store = Store()
+                returned = []
                 try:
                     stopped = pl.stop(nodes, store)
                     tag = "ok"
-                    w.st["ret"] = [_node_index(nd.node_name) for nd in stopped]
+                    returned = [_node_index(nd.node_name) for nd in stopped]
                 except real_psutil.AccessDenied:
                     tag = "AccessDenied"
                 except RuntimeError as ex:
@@ -628,6 +671,7 @@ def execute_proc(case):
                     result["stop_exc"] = repr(ex)
                 w.env_point()
                 w.st["pres"] = tag
+                w.st["ret"] = returned
                 w.emit("pret", w.cur, tag)
     finally:
         os.chdir(cwd)
@@ -756,7 +800,6 @@ def run_proc_cases(cases, out, label, stats):
         out.add_case({k: case.get(k) for k in CASE_KEYS}, nontrivial="poll" in names)
         stats["runs"] += 1
         fin = info["final"]
-        stats["start_ok"] += fin["sres"] == "ok"
         stats["start_" + fin["sres"]] = stats.get("start_" + fin["sres"], 0) + 1
         stats["stop_" + fin["pres"]] = stats.get("stop_" + fin["pres"], 0) + 1
         stats["sigkill"] += any(e["a"] == "kill" and e["r"] == "ok" for e in evs)
@@ -785,18 +828,9 @@ def run_proc_cases(cases, out, label, stats):
     for tid, fails in sorted(verdicts.l1.items()):
         case, item, info = index[tid]
         clauses = sorted({c for _, cl in fails for c in cl})
-        key = ",".join(clauses)
-        stats["l1"][key] = stats["l1"].get(key, 0) + 1
         replay = {k: case.get(k) for k in CASE_KEYS if case.get(k) is not None}
-        pinned = all(c in PINNED for c in clauses)
-        out.violations.append(
-            Violation(
-                key,
-                replay,
-                signature=_proc_signature(clauses, case, item),
-                detail="run %s, first failing event %d of %d%s" % (tid, fails[0][0], len(item["events"]), " (pinned: %s)" % "; ".join(PINNED[c][0] for c in clauses) if pinned else ""),
-            )
-        )
+        _report_l1(out, stats, tid, fails, replay, _proc_signature(clauses, case, item), "process run %s (%d events)" % (tid, len(item["events"])))
+    _explain_drift(out, "TraceLauncher", "TraceLauncher.cfg", [index[tid][1] for tid in sorted(verdicts.l2)], ["RemoveStalePid", "WaitAfterKill", "ContinuePastFailure", "DetachGone"], label)
     for tid, lines in sorted(verdicts.l2.items()):
         case, item, info = index[tid]
         ln = lines[0]
@@ -833,6 +867,7 @@ def run_process_part(ctx, out):
     # ---- Leg S2C + C2S
     stats = {k: 0 for k in ("runs", "start_ok", "sigkill", "gone_at_lookup", "gone_at_term_or_kill", "empty_pidfile_seen", "stale_pid_returned", "foreign_signalled", "real_timeouts", "events_max", "s2c_complete", "s2c_followed")}
     stats["l1"] = {}
+    stats["l1_new"] = {}
     stats["unexpected_exceptions"] = []
     sim = proc_cases_from_tlc(ctx, out, "Launcher.sim.cfg", 300 if ctx.quick else 3000, 80)
     sim += proc_cases_from_tlc(ctx, out, "Launcher.simok.cfg", 300 if ctx.quick else 3000, 80)
@@ -1030,18 +1065,9 @@ def run_rest_cases(cases, out, label, stats):
     out.traces_validated += verdicts.accepted(len(items))
     for tid, fails in sorted(verdicts.l1.items()):
         case, item = index[tid]
-        clauses = sorted({c for _, cl in fails for c in cl})
-        key = ",".join(clauses)
-        stats["l1"][key] = stats["l1"].get(key, 0) + 1
         fin = item["events"][-1]["st"]
-        out.violations.append(
-            Violation(
-                key,
-                {k: case[k] for k in ("max", "script", "hosts")},
-                signature={"part": "rest", "clauses": clauses, "calls_minus_max": fin["calls"] - item["max"], "pinned": sorted({PINNED[c][0] for c in clauses if c in PINNED})},
-                detail="run %s: max_attempts=%s, %d health calls, result %s%s" % (tid, case["max"], fin["calls"], fin["res"], " (pinned: %s)" % "; ".join(PINNED[c][0] for c in clauses) if all(c in PINNED for c in clauses) else ""),
-            )
-        )
+        _report_l1(out, stats, tid, fails, {k: case[k] for k in ("max", "script", "hosts")}, {"part": "rest", "calls_minus_max": fin["calls"] - item["max"]}, "wait_for_rest_layer run %s: max_attempts=%s, %d health calls, result %s" % (tid, case["max"], fin["calls"], fin["res"]))
+    _explain_drift(out, "TraceRestLayer", "TraceRestLayer.cfg", [index[tid][1] for tid in sorted(verdicts.l2)], ["ExactAttempts"], label)
     for tid, lines in sorted(verdicts.l2.items()):
         case, item = index[tid]
         ln = lines[0]
@@ -1066,7 +1092,7 @@ def run_rest_part(ctx, out):
             raise tlc.MachineryError("self-test failed: %s no longer violates %s" % (c, expect))
         else:
             out.extra.setdefault("model_selftests", []).append("%s violates %s in the model, as expected: ExactAttempts=FALSE, `while attempt <= max_attempts` counted from 0 makes max_attempts + 1 calls" % (c, expect))
-    stats = {"runs": 0, "res": {}, "max_calls": 0, "default_max_attempts": 0, "s2c": 0, "s2c_same": 0, "l1": {}}
+    stats = {"runs": 0, "res": {}, "max_calls": 0, "default_max_attempts": 0, "s2c": 0, "s2c_same": 0, "l1": {}, "l1_new": {}}
     cases = rest_cases_from_tlc(ctx, out)
     items = run_rest_cases(cases, out, "rdump", stats)
     out.sample({"source": "tlc-dump", "max_attempts": cases[-1]["max"], "script": cases[-1]["script"], "recorded": items[-1]["events"][-1]["st"]})
@@ -1080,6 +1106,354 @@ def run_rest_part(ctx, out):
     for key in ("True", "setup", "raise"):
         if not stats["res"].get(key):
             out.vacuous.append("no executed wait_for_rest_layer run ended with: " + key)
+
+
+# ===================================================================================================
+# DockerLauncher against fake docker-compose / docker commands
+# ===================================================================================================
+DOCKER_ENV = ("healthy", "sick", "die")
+DOCKER_DEFAULT_PT = 1200  # 10 min / sleep(0.5)
+
+
+def execute_docker(case):
+    """case: {"scn": {n, pt}, and either "sched" + "cmd" ({"up:1": "rc", ...}) from a TLC behaviour or "seed"}"""
+    from esrally import config, exceptions, telemetry
+    from esrally.mechanic import launcher, provisioner
+    from esrally.utils import sysstats
+
+    _quiet_root_logger()
+    scn = case["scn"]
+    n = scn["n"]
+    rnd = random.Random(case["seed"]) if case.get("seed") is not None else None
+    sched = case.get("sched")
+    st = {"cont": ["absent"] * n, "seen": [False] * n, "warn": [False] * n, "sw": 0, "sres": "none", "pres": "none"}
+    for f in ("ups", "downs", "polls", "att", "detR", "detS", "sysm"):
+        st[f] = [0] * n
+    init = copy.deepcopy(st)
+    events, anomalies = [], []
+    world = {"k": 0, "cur": 1, "mark": 0.0, "skipped": 0, "phase": None}
+    paths = {i: "/verif-docker/node%d/install" % i for i in range(1, n + 1)}
+    by_path = {v: k for k, v in paths.items()}
+
+    class HookClock(VirtualClock):
+        def sleep(self_, secs):
+            env_point()
+            if abs(secs - 0.5) > 1e-9:
+                anomalies.append("sleep(%r)" % (secs,))
+            super().sleep(secs)
+            emit("sleep", world["cur"], "ok")
+
+    clock = HookClock()
+
+    def emit(a, i, r):
+        st["sw"] = int((clock.now - world["mark"]) / 0.5 + 1e-6)
+        events.append({"a": a, "n": i, "r": r, "st": copy.deepcopy(st)})
+        if len(events) > 5200:
+            raise _Divergence("run does not end")
+
+    def enabled_env():
+        res = []
+        for i in range(1, n + 1):
+            c = st["cont"][i - 1]
+            if c == "starting":
+                res += [("healthy", i, "ok"), ("sick", i, "ok")]
+            if c in ("healthy", "unhealthy"):
+                res.append(("die", i, "ok"))
+        return res
+
+    def apply_env(a, i, r):
+        st["cont"][i - 1] = {"healthy": "healthy", "sick": "unhealthy", "die": "exited"}[a]
+        emit(a, i, r)
+
+    weight = {"healthy": 5.0 * case.get("w_healthy", 1.0), "sick": 0.3, "die": 0.08}
+
+    def env_point():
+        if sched is not None:
+            for a, i, r in sched.get(str(world["k"]), []):
+                if (a, i, r) in enabled_env():
+                    apply_env(a, i, r)
+                else:
+                    world["skipped"] += 1
+        elif rnd is not None:
+            idle = 6.0 * (1.0 - case.get("p_env", 0.5))
+            for _ in range(3):
+                en = enabled_env()
+                if not en:
+                    break
+                pick = rnd.choices(en + [None], weights=[weight[e[0]] for e in en] + [idle])[0]
+                if pick is None:
+                    break
+                apply_env(*pick)
+        world["k"] += 1
+
+    def cmd_result(name, i, ok, bad):
+        if sched is not None:
+            return case.get("cmd", {}).get("%s:%d" % (name, i), ok)
+        return bad if rnd.random() < case.get("p_fail", 0.05) else ok
+
+    def compose(cmd):
+        """-> (node, sub-command) of a docker-compose command line"""
+        pre = "docker-compose -f "
+        for path, i in by_path.items():
+            for sub in ("up -d", "ps -q", "down"):
+                if cmd == "%s%s/docker-compose.yml %s" % (pre, path, sub):
+                    return i, sub
+        return None, None
+
+    class ProcessShim:
+        @staticmethod
+        def run_subprocess_with_logging(cmd, *a, **kw):
+            i, sub = compose(cmd)
+            if sub not in ("up -d", "down") or a or kw:
+                raise _Divergence("unexpected command %r" % (cmd,))
+            world["cur"] = i
+            env_point()
+            if sub == "up -d":
+                r = cmd_result("up", i, "ok", "rc")
+                st["ups"][i - 1] += 1
+                if r == "ok":
+                    st["cont"][i - 1] = "starting"
+                emit("up", i, r)
+            else:
+                r = cmd_result("down", i, "ok", "rc")
+                st["downs"][i - 1] += 1
+                if r == "ok":
+                    st["cont"][i - 1] = "absent"
+                world["phase"] = ("down", i)
+                emit("down", i, r)
+            return 0 if r == "ok" else 1
+
+        @staticmethod
+        def run_subprocess_with_output(cmd, *a, **kw):
+            i, sub = compose(cmd)
+            if a or kw:
+                raise _Divergence("unexpected command %r %r" % (cmd, kw))
+            if sub == "ps -q":
+                world["cur"] = i
+                env_point()
+                r = cmd_result("psq", i, "id", "none")
+                if r == "id":
+                    world["mark"] = clock.now
+                emit("psq", i, r)
+                return ["c0ffee%d" % i] if r == "id" else []
+            for j in range(1, n + 1):
+                if cmd == 'docker ps -a --filter "id=c0ffee%d" --filter "status=running" --filter "health=healthy" -q' % j:
+                    world["cur"] = j
+                    env_point()
+                    healthy = st["cont"][j - 1] == "healthy"
+                    st["polls"][j - 1] += 1
+                    if healthy:
+                        st["seen"][j - 1] = True
+                    emit("dps", j, "healthy" if healthy else "no")
+                    return ["c0ffee%d" % j] if healthy else []
+            raise _Divergence("unexpected command %r" % (cmd,))
+
+    class RecDevice(telemetry.InternalTelemetryDevice):
+        def _ev(self_, node, field, name):
+            i = _node_index(node.node_name)
+            world["cur"] = i
+            env_point()
+            st[field][i - 1] += 1
+            emit(name, i, "ok")
+
+        def attach_to_node(self_, node):
+            if node.pid != 0:
+                anomalies.append("docker node with pid %r" % (node.pid,))
+            self_._ev(node, "att", "attach")
+
+        def detach_from_node(self_, node, running):
+            self_._ev(node, "detR" if running else "detS", "detR" if running else "detS")
+
+        def store_system_metrics(self_, node, metrics_store):
+            self_._ev(node, "sysm", "sysm")
+
+    real_telemetry_cls = telemetry.Telemetry
+
+    class RecTelemetry(real_telemetry_cls):
+        def __init__(self_, enabled_devices=None, devices=None, **kw):
+            super().__init__(enabled_devices, devices=list(devices or []) + [RecDevice()], **kw)
+
+    class Store:
+        def add_meta_info(self_, *a):
+            pass
+
+        def put_value_node_level(self_, *a, **kw):
+            pass
+
+    class WarnHandler(logging.Handler):
+        def emit(self_, record):
+            if record.levelno >= logging.WARNING and world["phase"] and events and events[-1]["a"] == "down":
+                i = world["phase"][1]
+                st["warn"][i - 1] = True
+                events[-1]["st"]["warn"][i - 1] = True
+
+    cfg = config.Config()
+    cfgs = [provisioner.NodeConfiguration("docker", "17", True, "127.0.0.1", "rally-node-%d" % i, "/verif-docker/node%d" % i, paths[i], []) for i in range(1, n + 1)]
+    saved = [(launcher, "process", launcher.process), (telemetry, "Telemetry", telemetry.Telemetry), (sysstats, "cpu_model", sysstats.cpu_model), (launcher.DockerLauncher, "PROCESS_WAIT_TIMEOUT_SECONDS", launcher.DockerLauncher.PROCESS_WAIT_TIMEOUT_SECONDS)]
+    lg = logging.getLogger("esrally.mechanic.launcher")
+    root_lg = logging.getLogger()
+    old = (lg.level, logging.root.manager.disable)
+    handler = WarnHandler()
+    try:
+        logging.disable(logging.NOTSET)
+        lg.setLevel(logging.WARNING)
+        lg.addHandler(handler)
+        launcher.process = ProcessShim
+        telemetry.Telemetry = RecTelemetry
+        sysstats.cpu_model = lambda: "verif-cpu"
+        if scn["pt"] != DOCKER_DEFAULT_PT:
+            launcher.DockerLauncher.PROCESS_WAIT_TIMEOUT_SECONDS = scn["pt"] * 0.5
+        with clock:
+            dl = launcher.DockerLauncher(cfg)
+            nodes = None
+            try:
+                nodes = dl.start(cfgs)
+                tag = "ok"
+            except exceptions.LaunchError as ex:
+                msg = str(ex.message)
+                tag = "rc" if "startup failed" in msg else "timeout" if "No healthy running container" in msg else "LaunchError"
+            except IndexError:
+                tag = "IndexError"
+            except _Divergence:
+                raise
+            except Exception as ex:  # pylint: disable=broad-except
+                tag = type(ex).__name__
+            env_point()
+            st["sres"] = tag
+            emit("sret", world["cur"], tag)
+            if nodes is not None:
+                if [_node_index(nd.node_name) for nd in nodes] != list(range(1, n + 1)):
+                    anomalies.append("start returned %r" % (nodes,))
+                try:
+                    r = dl.stop(nodes, Store())
+                    tag = "ok" if r is None else "returned %r" % (r,)
+                except _Divergence:
+                    raise
+                except Exception as ex:  # pylint: disable=broad-except
+                    tag = type(ex).__name__
+                env_point()
+                st["pres"] = tag
+                emit("pret", world["cur"], tag)
+    finally:
+        lg.removeHandler(handler)
+        lg.setLevel(old[0])
+        logging.disable(old[1])
+        for obj, name, prev in saved:
+            setattr(obj, name, prev)
+    return {"scn": dict(scn), "init": init, "events": events}, {"anomalies": anomalies, "skipped": world["skipped"], "final": st}
+
+
+def docker_cases_from_tlc(ctx, out, cfg, num, depth):
+    wd = tlc.prepare_workdir(SPEC, "xldsim")
+    simdir = os.path.join(wd, "sim")
+    os.makedirs(simdir)
+    res = tlc.run_tlc(wd, "MC_DockerLaunch", cfg, workers=1, simulate={"num": num, "file": os.path.join(simdir, "b")}, depth=depth, seed=ctx.seed + 9, timeout=300)
+    if not res.ok:
+        raise tlc.MachineryError("simulation reported a model violation: %s" % res.out[-2000:])
+    out.add_tlc(res)
+    cases = []
+    for fn in sorted(glob.glob(os.path.join(simdir, "b_*"))):
+        states = parse_simulation_file(fn)
+        if len(states) < 3:
+            continue
+        sched, cmd, model_events, k, complete = {}, {}, [], 0, False
+        for stt in states[1:]:
+            a = to_json(stt["act"])
+            if a["a"] in DOCKER_ENV:
+                sched.setdefault(str(k), []).append((a["a"], a["n"], a["r"]))
+            else:
+                if a["a"] in ("up", "psq", "down"):
+                    cmd["%s:%d" % (a["a"], a["n"])] = a["r"]
+                model_events.append([a["a"], a["n"], a["r"]])
+                k += 1
+            complete = complete or stt["s"]["pc"] in ("done", "failed")
+        cases.append({"src": "tlc-simulate", "scn": to_json(states[0]["scn"]), "sched": sched, "cmd": cmd, "model_events": model_events, "complete": complete})
+    return cases
+
+
+def random_docker_case(rnd):
+    real_to = rnd.random() < 0.01
+    n = rnd.choice([1, 1, 2, 3])
+    case = {"src": "random", "scn": {"n": 1 if real_to else n, "pt": DOCKER_DEFAULT_PT if real_to else rnd.randint(1, 12)}, "seed": rnd.randrange(1 << 30), "p_env": rnd.choice([0.2, 0.5, 0.8]), "p_fail": rnd.choice([0.0, 0.0, 0.1, 0.3])}
+    if real_to or rnd.random() < 0.1:
+        case["w_healthy"] = 0.0  # a container that never becomes healthy
+    return case
+
+
+DOCKER_KEYS = ("scn", "sched", "cmd", "seed", "p_env", "p_fail", "w_healthy")
+
+
+def run_docker_cases(cases, out, label, stats):
+    items, index = [], {}
+    for ci, case in enumerate(cases):
+        try:
+            item, info = execute_docker(case)
+        except _Divergence as ex:
+            out.drift.append("%s-%d: %s; case %s" % (label, ci, ex, case["scn"]))
+            continue
+        item["id"] = "%s-%d" % (label, ci)
+        items.append(item)
+        index[item["id"]] = (case, item)
+        evs = item["events"]
+        fin = info["final"]
+        out.add_case({k: case.get(k) for k in DOCKER_KEYS}, nontrivial=any(e["a"] == "dps" for e in evs))
+        stats["runs"] += 1
+        stats["start_" + fin["sres"]] = stats.get("start_" + fin["sres"], 0) + 1
+        stats["down_failed"] += any(e["a"] == "down" and e["r"] == "rc" for e in evs)
+        stats["events_max"] = max(stats["events_max"], len(evs))
+        if info["anomalies"]:
+            out.drift.append("%s: %s" % (item["id"], info["anomalies"][:2]))
+        if case.get("model_events") is not None and case["complete"]:
+            stats["s2c_complete"] += 1
+            mine = [[e["a"], e["n"], e["r"]] for e in evs if e["a"] not in DOCKER_ENV]
+            stats["s2c_followed"] += mine == case["model_events"] and info["skipped"] == 0
+    verdicts = tracecheck.validate(SPEC, "TraceDockerLaunch", "TraceDockerLaunch.cfg", items, name="xldtrace", chunk=1500, timeout=600)
+    out.states += verdicts.n_events
+    out.transitions += verdicts.n_events
+    out.traces_validated += verdicts.accepted(len(items))
+    for tid, fails in sorted(verdicts.l1.items()):
+        case, item = index[tid]
+        _report_l1(out, stats, tid, fails, {k: case.get(k) for k in DOCKER_KEYS if case.get(k) is not None}, {"part": "docker"}, "docker run %s (%d events)" % (tid, len(item["events"])))
+    _explain_drift(out, "TraceDockerLaunch", "TraceDockerLaunch.cfg", [index[tid][1] for tid in sorted(verdicts.l2)], ["CheckDown"], label)
+    for tid, lines in sorted(verdicts.l2.items()):
+        case, item = index[tid]
+        ln = lines[0]
+        what = {k: item["events"][ln - 1][k] for k in ("a", "n", "r")} if 1 <= ln <= len(item["events"]) else ("initial state" if ln == 0 else "end of run")
+        out.drift.append("run %s: event %d (%s) is not a step of DockerLaunch.tla (code as it is); case %s" % (tid, ln, what, {k: case.get(k) for k in ("scn", "seed", "cmd")}))
+    return items
+
+
+def run_docker_part(ctx, out):
+    todo = [("DockerLaunch.quick.cfg" if ctx.quick else "DockerLaunch.thorough.cfg", None), ("DockerLaunch.repaired.cfg", None), ("DockerLaunch.selftest.down.cfg", "DownChecked"), ("DockerLaunch.selftest.leak.cfg", "NoLeakOnFailedStart")]
+    texts = {
+        "DownChecked": "CheckDown=FALSE: the exit code of `docker-compose down` is dropped, a container that could not be removed goes unnoticed",
+        "NoLeakOnFailedStart": "a container that was brought up but never becomes healthy (or a later node that fails) is left running when start() raises",
+    }
+    for c, expect in todo:
+        wd = tlc.prepare_workdir(SPEC, "xldmc")
+        res = tlc.run_tlc(wd, "MC_DockerLaunch", c, timeout=300, allow_violation=True, workers=2)
+        if expect is None:
+            out.add_tlc(res)
+            if not res.ok:
+                raise tlc.MachineryError("model violates %s in %s: %s" % (res.invariant_violated, c, res.out[-1500:]))
+            out.note("leg M %s: %d distinct states, %.1fs" % (c, res.distinct, res.wall_s))
+        elif res.invariant_violated != expect:
+            raise tlc.MachineryError("self-test failed: %s no longer violates %s" % (c, expect))
+        else:
+            out.extra.setdefault("model_selftests", []).append("%s violates %s in the model, as expected: %s" % (c, expect, texts[expect]))
+    stats = {"runs": 0, "down_failed": 0, "events_max": 0, "s2c_complete": 0, "s2c_followed": 0, "l1": {}, "l1_new": {}}
+    sim = docker_cases_from_tlc(ctx, out, "DockerLaunch.sim.cfg", 120 if ctx.quick else 1500, 70)
+    sim += docker_cases_from_tlc(ctx, out, "DockerLaunch.simok.cfg", 120 if ctx.quick else 1500, 70)
+    items = run_docker_cases(sim, out, "dsim", stats)
+    out.sample({"source": "tlc-simulate (docker)", "scn": sim[0]["scn"], "recorded_events": [[e["a"], e["n"], e["r"]] for e in items[0]["events"]]})
+    rnd = random.Random(ctx.seed + 211)
+    rc = [random_docker_case(rnd) for _ in range(250 if ctx.quick else 4000)]
+    run_docker_cases(rc, out, "drnd", stats)
+    out.extra["docker_runs"] = stats
+    out.note("leg S2C/C2S (docker): %d runs, start results %s, compose down failed in %d, longest run %d events; S2C: %d/%d complete TLC behaviours reproduced event by event" % (stats["runs"], {k[6:]: v for k, v in stats.items() if k.startswith("start_")}, stats["down_failed"], stats["events_max"], stats["s2c_followed"], stats["s2c_complete"]))
+    for key in ("start_ok", "start_timeout", "start_rc", "down_failed", "s2c_followed"):
+        if not stats.get(key):
+            out.vacuous.append("no executed docker run exercised: " + key)
 
 
 def run(ctx, out):
@@ -1098,3 +1472,9 @@ def run(ctx, out):
     ]
     run_process_part(ctx, out)
     run_rest_part(ctx, out)
+    run_docker_part(ctx, out)
+    for c, rec in sorted(out.extra.get("pinned_behaviour_observed", {}).items()):
+        rec.pop("size", None)
+        out.note("pinned behaviour of /repo (strong clause %s fails in %d runs; model switch %s = FALSE): %s; smallest example %s" % (c, rec["runs"], rec["switch"], rec["what"], str(rec["example"])[:400]))
+    if out.drift:
+        out.note("MODEL-DRIFT in %d places, first: %s" % (len(out.drift), out.drift[0][:600]))
